@@ -1,4 +1,169 @@
-(* C10 - script expressions (under construction) *)
+(* C10 - script expressions: conventional precedence, associativity, total arithmetic, built-ins.
+   This file contains only the property statements; every proof is `exact <lemma>`.
+
+   Reading guide.  ExprSpec (independent of the model): syntax trees, the four levels
+   * / %  <  + -  <  comparisons  <  & |, left associativity and parentheses as the relation
+   [prints l e t] ("t renders e, operators outside parentheses have level <= l"), the printers
+   [print] / [print_lay], the denotation [denote] (None = ill-typed).  Expr (model): read_calc
+   (read_value / read_operator / read_calc_priority of lexer.rs) and the evaluation of runner.rs;
+   [eval_text tb lexvars env s] = the value PRINT shows for the expression at the start of s.
+   [inj] / [menv] embed specification values / environments into the model's SValue.
+   [stop_tail r]: r is blanks followed by the end of the text or by a character that is not a blank,
+   an operator character, a letter, digit, '_' or '(' (for instance ')' ';' ',' or a line break). *)
 From Sakura.Model Require Import Base Cursor Expr.
 From Sakura.Spec Require Import ExprSpec.
 From Sakura.Proofs Require Import ExprP.
+
+(* Main theorem.  For every syntax tree e over integer literals (decimal, $hex, 0x, 0o) and integer
+   variables, of any depth, with unary minus and all 15 operator spellings, for EVERY rendering t of e
+   (any blanks, any redundant parentheses, necessary parentheses by level and left associativity), the
+   reader followed by the evaluator yields the value e denotes - whenever e is well-typed (denote <> None). *)
+Theorem C10_parse_eval :
+  forall (tb : Z) (lexvars : list (list Z)) (en : env) (e : expr) (t : list Z) (v : value) (ws r : list Z),
+  prints 4 e t -> no_str e = true -> int_env en -> denote en e = Some v -> blanks ws -> stop_tail r ->
+  eval_text tb lexvars (menv en) (ws ++ t ++ r) = Ok (inj v).
+Proof. exact parse_eval. Qed.
+
+(* The canonical printer (parentheses exactly where the level demands them, no blanks) ... *)
+Theorem C10_parse_eval_canonical :
+  forall (tb : Z) (lexvars : list (list Z)) (en : env) (e : expr) (v : value) (r : list Z),
+  expr_ok e = true -> no_str e = true -> int_env en -> denote en e = Some v -> stop_tail r ->
+  eval_text tb lexvars (menv en) (print e ++ r) = Ok (inj v).
+Proof. exact parse_eval_print. Qed.
+
+(* ... and the layout-driven printer used by the test generator (random blanks / redundant parentheses). *)
+Theorem C10_parse_eval_layouts :
+  forall (tb : Z) (lexvars : list (list Z)) (en : env) (e : expr) (v : value) (cs : list nat) (r : list Z),
+  expr_ok e = true -> no_str e = true -> int_env en -> denote en e = Some v -> stop_tail r ->
+  eval_text tb lexvars (menv en) (fst (print_lay 4 e cs) ++ r) = Ok (inj v).
+Proof. exact parse_eval_layout. Qed.
+
+(* Division and remainder by zero yield 0: for the evaluator on any operands, and for whole
+   expressions "e/0", "e%0" over any integer-valued e. *)
+Theorem C10_div_mod_zero :
+  (forall a b : sval, to_i b = 0 -> calc 47 a b = Ok (SInt 0) /\ calc 37 a b = Ok (SInt 0)) /\
+  (forall (tb : Z) (lexvars : list (list Z)) (en : env) (e : expr) (z : Z) (r : list Z),
+     expr_ok e = true -> no_str e = true -> int_env en -> denote en e = Some (VI z) -> stop_tail r ->
+     eval_text tb lexvars (menv en) (print (Bin ODiv e zero_lit) ++ r) = Ok (SInt 0) /\
+     eval_text tb lexvars (menv en) (print (Bin OMod e zero_lit) ++ r) = Ok (SInt 0)).
+Proof. exact (conj calc_div_mod_zero div_mod_zero_expr). Qed.
+
+(* Literals: decimal digits, "$" or "0x" followed by hex digits of either case, "0o" followed by octal
+   digits denote their value, and the reader stops exactly after them (r: what follows is not a
+   letter, digit or '_'). *)
+Theorem C10_literals : forall (n : literal) (r : list Z) (def : Z),
+  lit_ok n = true -> nw r -> get_int def (lit_text n ++ r) = (lit_value n, r).
+Proof. exact get_int_lit. Qed.
+
+(* What the code does with the digit 8 after "0o": it is accepted as a digit of value 8 ("0o18" = 16). *)
+Theorem C10_octal_digit_8 : forall (ds r : list Z) (def : Z),
+  ds <> [] -> forallb (in_range 0 8) ds = true -> nw r ->
+  get_int def (48 :: 111 :: map (fun d => 48 + d) ds ++ r) = (value_in 8 0 ds, r).
+Proof. exact get_int_octal_8. Qed.
+
+(* MID(s,i,n) = the n characters from the 1-based position i, clamped to the string, for any text
+   and any position / length of the isize range (negative ones included). *)
+Theorem C10_mid : forall (name s : list Z) (i n : Z),
+  In name n_MID -> isize_ok i -> isize_ok n -> zlen s < 2 ^ 63 ->
+  sys_function name [SStr s; SInt i; SInt n] = Ok (SStr (mid s i n)) /\
+  mid s i n = firstn (Z.to_nat n) (skipn (Z.to_nat (i - 1)) s).
+Proof. intros name s i n H1 H2 H3 H4. exact (conj (sys_mid name s i n H1 H2 H3 H4) (mid_spec_eq s i n)). Qed.
+
+(* SizeOf counts characters of a string and elements of an array. *)
+Theorem C10_sizeof : forall (name : list Z) (v : sval),
+  In name n_SizeOf ->
+  sys_function name [v] = Ok (SInt (match v with SArr a => size_of a | SStr s => size_of s | _ => 0 end)).
+Proof. exact sys_sizeof. Qed.
+
+(* REPLACE(s,a,b) replaces every (non-overlapping, leftmost first) occurrence of a non-empty a. *)
+Theorem C10_replace_all : forall (name s a b : list Z),
+  In name n_REPLACE -> a <> [] ->
+  sys_function name [SStr s; SStr a; SStr b] = Ok (SStr (replace_all s a b)).
+Proof. exact sys_replace. Qed.
+
+(* CHR(n) is the character n, for every Unicode scalar value. *)
+Theorem C10_chr : forall (name : list Z) (n : Z),
+  In name n_CHR -> is_scalar n = true -> sys_function name [SInt n] = Ok (SStr (chr n)).
+Proof. exact sys_chr. Qed.
+
+(* A(i) is element i counted from 0. *)
+Theorem C10_array_index : forall (en : venv) (x : list Z) (k : tok) (a : list sval) (i : Z) (v : sval),
+  var_get en x = Some (SArr a) -> eval en k = Ok (SInt i) -> isize_ok i -> array_get a i = Some v ->
+  eval en (TCall true x [k]) = Ok v.
+Proof. exact eval_array_index. Qed.
+
+(* "+" concatenates the texts of its operands when either one is a string, and adds otherwise; booleans
+   are shown as TRUE / FALSE and strings as themselves (the decimal text of integers is tied to the
+   specification's by the correspondence check only). *)
+Theorem C10_plus_concat :
+  (forall a b : sval, calc 43 a b = Ok (if is_s a || is_s b then SStr (to_s a ++ to_s b) else SInt (to_i a + to_i b))) /\
+  (forall v : value, (forall z, v <> VI z) -> to_s (inj v) = show v).
+Proof. exact (conj calc_plus shown_bool_str). Qed.
+
+(* ---- non-vacuity: the hypotheses are satisfiable and the theorems compute ---- *)
+Definition lit (z : Z) : expr := Lit (Dec [z]).
+Definition ex_env : env := [([65], VI 3); ([66], VI (-7))].           (* A=3, B=-7 *)
+(* (A - 2 - B) * 0x1F < 4 | 1 = 2   with A-2-B = 8 *)
+Definition ex_e : expr :=
+  Bin OOr (Bin OLt (Bin OMul (Bin OSub (Bin OSub (Var [65]) (lit 2)) (Var [66])) (Lit (Hex false [(1, false); (15, true)]))) (lit 4))
+          (Bin OEq (lit 1) (lit 2)).
+Lemma ex_int_env : int_env ex_env.
+Proof.
+  intros x v. unfold ex_env. cbn [lookup].
+  destruct (text_eqb x [65]); [intros H; inversion H; eexists; reflexivity|].
+  destruct (text_eqb x [66]); [intros H; inversion H; eexists; reflexivity|]. discriminate.
+Qed.
+Lemma ex_stop : stop_tail [41].
+Proof. exists [], [41]. repeat split. Qed.
+
+Example C10_example_tree :
+  expr_ok ex_e = true /\ no_str ex_e = true /\ int_env ex_env /\ denote ex_env ex_e = Some (VB false) /\ stop_tail [41] /\
+  print ex_e = [40;65;45;50;45;66;41;42;48;120;49;70;60;52;124;49;61;50] /\      (* (A-2-B)*0x1F<4|1=2 *)
+  eval_text 96 [] (menv ex_env) (print ex_e ++ [41]) = Ok (SBool false) /\
+  prints 4 ex_e (fst (print_lay 4 ex_e [1;4;2;7;0;1;5;3;8;6;1;2;9]%nat)).
+Proof.
+  repeat split; try (vm_compute; reflexivity); try exact ex_int_env; try exact ex_stop.
+  apply print_lay_prints. reflexivity.
+Qed.
+
+Example C10_example_precedence :   (* the repaired witnesses, computed by the model *)
+  eval_text 96 [] [] [50;42;51;43;49;41] = Ok (SInt 7) /\              (* 2*3+1) *)
+  eval_text 96 [] [] [49;45;50;45;51;41] = Ok (SInt (-4)) /\           (* 1-2-3) *)
+  eval_text 96 [] [] [40;50;42;51;41;43;49;41] = Ok (SInt 7) /\        (* (2*3)+1) *)
+  eval_text 96 [] [] [49;43;50;60;52;41] = Ok (SBool true) /\          (* 1+2<4) *)
+  eval_text 96 [] [] [53;37;48;41] = Ok (SInt 0).                      (* 5%0) *)
+Proof. repeat split; vm_compute; reflexivity. Qed.
+
+Example C10_example_literals :
+  lit_ok (Hex true [(1, false); (15, true)]) = true /\ nw [41] /\
+  get_int 0 ([36;49;70] ++ [41]) = (31, [41]) /\                       (* $1F *)
+  get_int 0 [48;111;49;56] = (16, []).                                 (* 0o18 *)
+Proof. repeat split; vm_compute; reflexivity. Qed.
+
+Example C10_example_builtins :
+  In [77;73;68] n_MID /\ isize_ok (-1) /\ isize_ok 2 /\
+  sys_function [77;73;68] [SStr [12354;12356;12358]; SInt 2; SInt 1] = Ok (SStr [12356]) /\   (* MID({あいう},2,1) = い *)
+  sys_function [77;73;68] [SStr [97;98;99]; SInt 1; SInt (-1)] = Ok (SStr []) /\
+  sys_function [77;73;68] [SStr [97;98;99]; SInt (-1); SInt 2] = Ok (SStr [97;98]) /\
+  sys_function [83;105;122;101;79;102] [SStr [12354;12356]] = Ok (SInt 2) /\                  (* SizeOf({あい}) *)
+  sys_function [82;69;80;76;65;67;69] [SStr [97;97;97]; SStr [97;97]; SStr [98]] = Ok (SStr [98;97]) /\
+  is_scalar 12354 = true /\ sys_function [67;72;82] [SInt 12354] = Ok (SStr [12354]) /\
+  eval [([65;82], SArr [SInt 5; SInt 6; SInt 7])] (TCall true [65;82] [TConstInt 2]) = Ok (SInt 7) /\
+  calc 43 (SStr [97]) (SInt 1) = Ok (SStr [97;49]) /\ to_s (inj (VB true)) = [84;82;85;69].    (* {a}+1 = a1, TRUE *)
+Proof.
+  repeat split; try (vm_compute; reflexivity); try (unfold isize_ok; lia).
+  left. reflexivity.
+Qed.
+
+Print Assumptions C10_parse_eval.
+Print Assumptions C10_parse_eval_canonical.
+Print Assumptions C10_parse_eval_layouts.
+Print Assumptions C10_div_mod_zero.
+Print Assumptions C10_literals.
+Print Assumptions C10_octal_digit_8.
+Print Assumptions C10_mid.
+Print Assumptions C10_sizeof.
+Print Assumptions C10_replace_all.
+Print Assumptions C10_chr.
+Print Assumptions C10_array_index.
+Print Assumptions C10_plus_concat.
